@@ -9,7 +9,7 @@
    pair-verify answer (0 .. never): all theorems hold with a pair-verify request IN FLIGHT
    (phase [PVerify], cut off by the 30 s request timeout) at any point of the history. *)
 From Coq Require Import List NArith Arith Bool Lia.
-From AHK Require Import Model.Reconnect Proofs.Reconnect Proofs.ReconnectTrace.
+From AHK Require Import Model.Reconnect Proofs.Reconnect Proofs.ReconnectTrace Proofs.ReconnectWait.
 Import ListNotations.
 
 (* at most one connector task, in every reachable state and between control events *)
@@ -180,6 +180,38 @@ Proof.
   split; [exact Hc|]. split; [exact Hr|exact Ho].
 Qed.
 
+(* round 8 (seed C10-O): callers that begin (Ensure) or cease (Cancel) to wait for the connection while the connector
+   task is alive - any number of them, in any order - leave the connector exactly as it was: same phase (hence the same
+   wake-up time of a back-off sleep, the same dial-round / request deadline), failure count, immediate-retry budget,
+   scripts, connections, address lists and exclusions.  Only reconnect_soon / a zeroconf update hasten a retry. *)
+Theorem waiting_never_hastens : forall s f t l, reachable s ->
+    let s0 := advance f t s in
+    running s0 = true -> wait_controls l = true ->
+    same_connector (fold_left (fun s c => apply_control c s) l s0) s0.
+Proof.
+  intros s f t l H. cbv zeta. intros R W.
+  exact (waiting_keeps_connector l _ W R (i_run _ (reachable_advance_inv _ f t H) R)).
+Qed.
+
+Theorem waiting_keeps_backoff_sleep : forall s f t l wake, reachable s ->
+    let s0 := advance f t s in
+    ph s0 = PSleep wake -> wait_controls l = true ->
+    let s' := fold_left (fun s c => apply_control c s) l s0 in
+    ph s' = PSleep wake /\ nfail s' = nfail s0 /\ dials s' = dials s0 /\ opn s' = opn s0 /\ ntasks s' = ntasks s0.
+Proof.
+  intros s f t l wake H. cbv zeta. intros P W.
+  assert (R : running (advance f t s) = true) by (unfold running; now rewrite P).
+  exact (waiting_keeps_sleep l _ wake W P (i_run _ (reachable_advance_inv _ f t H) R)).
+Qed.
+
+(* a poller during an outage: four callers arrive inside the first back-off sleep (0.75 s), one gives up; there is still
+   exactly one attempt and the connector sleeps until tick 1 + 3072 *)
+Example pollers_keep_backoff :
+  let s := run [0] false [] [] [(1%N, Ensure 1); (11%N, Ensure 2); (411%N, Ensure 3); (811%N, Cancel 3); (1211%N, Ensure 4)]
+               3001%N in
+  count_dials (trace s) = 1 /\ ph s = PSleep 3073%N /\ ntasks s = 1 /\ tie s = false.
+Proof. vm_compute. repeat split; reflexivity. Qed.
+
 (* non-vacuity: two hosts, the first answers with the wrong pairing id, the second refuses; the
    machine retries both with growing delays and stays within every bound above *)
 Example c10_nonvacuous :
@@ -204,3 +236,5 @@ Print Assumptions all_hosts_offered_without_exclusions.
 Print Assumptions no_attempt_after_shutdown.
 Print Assumptions attempts_offer_candidates.
 Print Assumptions exclusions_within_hosts.
+Print Assumptions waiting_never_hastens.
+Print Assumptions waiting_keeps_backoff_sleep.
